@@ -315,11 +315,19 @@ def stagnation(case, out, tol, last=None):
         c = certificate(case, w, "subdiff")
         v = float(max(c["feat"], c["icpt"]))
         L = np.asarray(P.coord_lipschitz(case), float)
-        Lmax = float(max(np.max(L) if L.size else 0., 1.))      # 1 also covers the intercept coordinate
+        vec = np.asarray(c["vec"], float)
+        if vec.shape != L.shape:
+            return None
+        with np.errstate(all="ignore"):
+            gains = np.where(L > 0, vec ** 2 / (2 * np.where(L > 0, L, 1.)), 0.)
+        gain = float(np.max(gains)) if gains.size else 0.
+        j = int(np.argmax(gains)) if gains.size else -1
         drop = float(obj[-last - 1] - obj[-1])
-        if math.isfinite(v) and v > 1e3 * tol and drop < 1e-2 * v * v / (2 * Lmax):
-            return (f"stops moving at a point whose optimality violation is {v:.3e} (tol {tol:g}): objective change over the last {last} "
-                    f"outer iterations {drop:.1e}, while one coordinate pass must gain >= {v * v / (2 * Lmax):.1e}")
+        # the guaranteed gain must be resolvable in floating point next to the objective's magnitude
+        resolvable = gain > 1e-9 * max(abs(float(obj[-1])), abs(float(obj[-last - 1])), 1e-300)
+        if math.isfinite(v) and j >= 0 and vec[j] > 1e3 * tol and resolvable and drop < 1e-2 * gain:
+            return (f"stops moving at a point whose optimality violation on coordinate {j} is {vec[j]:.3e} (tol {tol:g}): objective change over "
+                    f"the last {last} outer iterations {drop:.1e}, while one pass over that coordinate must gain >= {gain:.1e}")
         return None
     except Exception:  # noqa -- no reference model: no judgement
         return None
